@@ -546,6 +546,38 @@ fn parse_qualified_rule(input: &mut StepParser, ss: &mut StyleSheetTransformer) 
         if r.is_ok() {
             return;
         }
+        // `:host` further on in the selector (`.a :host`, `.a, :host`) is a combination as well
+        let mut combined = None;
+        let _ = input.try_parse::<_, (), ParseError<()>>(|input| {
+            let mut colons = 0;
+            while let Ok(next) = input.next_including_whitespace() {
+                match &*next {
+                    Token::CurlyBracketBlock => break,
+                    Token::Colon => {
+                        colons += 1;
+                        continue;
+                    }
+                    Token::Ident(x) | Token::Function(x)
+                        if colons == 1 && x.eq_ignore_ascii_case("host") =>
+                    {
+                        combined = Some(next.position);
+                        break;
+                    }
+                    _ => {}
+                }
+                colons = 0;
+            }
+            Err(input.new_custom_error(()))
+        });
+        if let Some(pos) = combined {
+            ss.add_warning(error::ParseErrorKind::HostSelectorCombination, pos..pos);
+            while let Ok(next) = input.next() {
+                if *next == Token::CurlyBracketBlock {
+                    break;
+                }
+            }
+            return;
+        }
     }
     loop {
         let r = input.try_parse::<_, _, ParseError<()>>(|input| {
